@@ -10,7 +10,7 @@
      castfree e         no explicit width-changing BitsN(.) cast (the property's exemption)
      check (Sh)         shift amounts have the width of the shifted Bits value (the property's other exemption)
      env_ok E st        the runtime temporaries / loop variables have the types the checker recorded *)
-From PV Require Import Base.Prelude Bits.BitsSpec RTL.Syntax RTL.Eval RTL.Typing RTL.TypingSound.
+From PV Require Import Base.Prelude Bits.BitsSpec RTL.Syntax RTL.Eval RTL.Typing RTL.TypingSound RTL.TypingMono.
 Open Scope Z_scope.
 
 (* "an integer literal's inferred width is the least number of bits that holds it" *)
@@ -100,6 +100,22 @@ Theorem C10_tc_complete_cmp_runtime E st op a b ra rb n u m v :
   eval (tsig E) st (ECmp op a b) = Err EValue /\ tc strict E (ECmp op a b) = None.
 Proof. exact (tc_complete_cmp_runtime E st op a b ra rb n u m v). Qed.
 Print Assumptions C10_tc_complete_cmp_runtime.
+
+(* link between the two checkers: every extra check only removes accepted programs; whatever strict accepts,
+   the model of the code accepts with the same type and the same width on every node *)
+Theorem C10_strict_sub_impl E e r : tc strict E e = Some r -> tc impl E e = Some r.
+Proof. exact (strict_sub_impl E e r). Qed.
+Print Assumptions C10_strict_sub_impl.
+Theorem C10_strict_sub_impl_assign E l e x : tc_assign strict E l e = Some x -> tc_assign impl E l e = Some x.
+Proof. apply tc_assign_mono. intros k Hk; discriminate Hk. Qed.
+Print Assumptions C10_strict_sub_impl_assign.
+(* hence: operands (of the sound fragment) that evaluate to Bits of different widths make the code's checker reject *)
+Theorem C10_tc_complete_bin_runtime_impl E st op a b ra rb n u m v :
+  tc strict E a = Some ra -> tc strict E b = Some rb -> castfree a = true -> castfree b = true -> env_ok E st ->
+  eval (tsig E) st a = Ok (VBits n u) -> eval (tsig E) st b = Ok (VBits m v) -> n <> m -> is_shift op = false ->
+  eval (tsig E) st (EBin op a b) = Err EValue /\ tc impl E (EBin op a b) = None.
+Proof. exact (tc_complete_bin_runtime_impl E st op a b ra rb n u m v). Qed.
+Print Assumptions C10_tc_complete_bin_runtime_impl.
 
 (* the soundness statement is FALSE for the checker as implemented: blocks that impl accepts, that use no cast and
    no shift, and whose execution raises ValueError (one per missing check; harness/c10.py finds each on the real code) *)
